@@ -717,6 +717,7 @@ func typedAPI(repM, repU *Report, wM, wU *CaseWriter, r *rand.Rand, thorough boo
 	apiHookKeyOrder(repM, repU, r)
 	apiInterleavedTaps(repM)
 	apiCtxBuilders(repM, repU)
+	apiSkipAnything(repU)
 	apiRound8Typed(repM, repU)
 	apiUnmarshalSinkReuse(repU)
 	apiRound7Typed(repM, repU)
@@ -3083,3 +3084,91 @@ func apiPolledDecoder(rep *Report, r *rand.Rand) {
 type plainOnly struct{ r io.Reader }
 
 func (p plainOnly) Read(b []byte) (int, error) { return p.r.Read(b) }
+
+// ---- round 8, second part ----
+
+// range bounds built from sentinel tokens keep their order however they are marshalled (C06 through the marshaller)
+func apiSentinelBounds(rep *Report) {
+	type bound struct {
+		Shard int
+		Key   sb.Token
+	}
+	for _, skipEmpty := range []bool{false, true} {
+		ctx := sb.Ctx{SkipEmptyStructFields: skipEmpty, Marshal: sb.MarshalValue}
+		mk := func(v any) []sb.Token { ts, _ := collectN(sb.MarshalCtx(ctx, v), 1000); return ts }
+		lo, mid, hi := mk(bound{3, sb.Min}), mk(bound{3, sb.Token{Kind: sb.KindString, Value: "k"}}), mk(bound{3, sb.Max})
+		c1, e1 := cmpTokensImpl(lo, mid)
+		c2, e2 := cmpTokensImpl(mid, hi)
+		c3, e3 := cmpTokensImpl(lo, hi)
+		rep.Evaluations += 3
+		rep.count("api:sentinel-bounds")
+		if e1 != nil || e2 != nil || e3 != nil || c1 >= 0 || c2 >= 0 || c3 >= 0 {
+			rep.violate("C06", "min-not-below", fmt.Sprintf("bounds {3, Min} / {3, \"k\"} / {3, Max} marshalled (skip-empty=%v) to [%s] / [%s] / [%s] compare %d %d %d (%v %v %v): Min sorts below and Max above every value", skipEmpty, descTokens(lo), descTokens(mid), descTokens(hi), c1, c2, c3, e1, e2, e3), "range bounds with sentinel tokens")
+		}
+	}
+}
+
+// FindByHash on streams holding Ref tokens: a reference IS found by its payload (a substituted sub-value keeps its hash)
+func apiFindRefs(rep *Report) {
+	h := []byte("0123456789abcdef")
+	ref := sb.Token{Kind: sb.KindRef, Value: h}
+	streams := [][]sb.Token{
+		{ref},
+		{tokK(sb.KindArray), tokI(1), ref, tokK(sb.KindArrayEnd)},
+		{tokK(sb.KindObject), tokS("A"), ref, tokS("B"), tokK(sb.KindArray), ref, tokK(sb.KindArrayEnd), tokK(sb.KindObjectEnd)},
+		{{Kind: sb.KindTypeName, Value: "t"}, ref},
+	}
+	for _, ts := range streams {
+		for _, f := range []hashFn{hashFns[0], hashFns[2]} {
+			var got []sb.Token
+			var err error
+			e := guard(func() error {
+				s, e2 := sb.FindByHash(tokensFrom(ts), h, f.new)
+				if e2 != nil {
+					err = e2
+					return nil
+				}
+				got, err = collect(s)
+				return nil
+			})
+			rep.Evaluations++
+			rep.count("api:find-refs")
+			if e != nil || err != nil || len(got) != 1 || !tokenExactEq(got[0], ref) {
+				what := fmt.Sprintf("FindByHash(%s) with the payload of a reference the stream holds returns [%s] (%v %v), expected the reference token", f.name, descTokens(got), err, e)
+				rep.violate("C13", "pipeline-error", what, "stream=["+descTokens(ts)+"]")
+				rep.violate("C12", "find-missing", what, "stream=["+descTokens(ts)+"]")
+				rep.violate("C10", "declined-reference-not-passed-through", what, "stream=["+descTokens(ts)+"]")
+			}
+		}
+	}
+}
+
+// unknown and deprecated members are skipped whatever they hold - literal tokens, sentinels, references included
+func apiSkipAnything(repU *Report) {
+	type T struct{ A int }
+	lit := sb.Token{Kind: sb.KindLiteral, Value: "12.5"}
+	vals := [][]sb.Token{
+		{lit}, {tokK(sb.KindMin)}, {tokK(sb.KindMax)}, {{Kind: sb.KindRef, Value: []byte("h")}}, {tokK(sb.KindNaN)}, {tokK(sb.KindNil)},
+		{tokK(sb.KindArray), lit, tokK(sb.KindArray), lit, tokK(sb.KindArrayEnd), tokK(sb.KindArrayEnd)},
+		{tokK(sb.KindObject), tokS("x"), lit, tokS("y"), tokK(sb.KindNil), tokK(sb.KindObjectEnd)},
+		{tokK(sb.KindMap), lit, lit, tokK(sb.KindMapEnd)},
+		{tokK(sb.KindTuple), lit, tokK(sb.KindMin), tokK(sb.KindTupleEnd)},
+		{{Kind: sb.KindTypeName, Value: "t"}, lit},
+	}
+	for _, val := range vals {
+		ts := append(append([]sb.Token{tokK(sb.KindObject), tokS("Gone")}, val...), tokS("A"), tokI(7), tokK(sb.KindObjectEnd))
+		var v T
+		e := guard(func() error { return copyBudget(tokensFrom(ts), sb.Unmarshal(&v)) })
+		var w WithDeprecated
+		ts2 := append(append([]sb.Token{tokK(sb.KindObject), tokS("Old")}, val...), tokS("Keep"), tokI(7), tokK(sb.KindObjectEnd))
+		strict := sb.Ctx{DisallowUnknownStructFields: true, Unmarshal: sb.UnmarshalValue}
+		e2 := guard(func() error { return copyBudget(tokensFrom(ts2), sb.UnmarshalValue(strict, reflect.ValueOf(&w), nil)) })
+		repU.Evaluations += 2
+		repU.count("api:skip-anything")
+		if e != nil || v.A != 7 || e2 != nil || w.Keep != 7 {
+			what := fmt.Sprintf("an unknown member holding [%s]: %v (A=%d); the same under a deprecated name in strict mode: %v (Keep=%d); both must be skipped", descTokens(val), e, v.A, e2, w.Keep)
+			repU.violate("C16", "unknown-field-not-skipped", what, "stream=["+descTokens(ts)+"]")
+			repU.violate("C05", "conforming-rejected", what, "stream=["+descTokens(ts)+"]")
+		}
+	}
+}
